@@ -29,9 +29,17 @@ pub struct Env {
     pub entropy_seed: u64,
     pub clock_seed: u64,
     pub context: Context,
+    /// number of CPUs in the process' affinity mask (what `available_parallelism()` and
+    /// num_cpus report); the reference has 1
+    #[serde(default = "one")]
+    pub cpus: usize,
     /// when present the scheduler follows this list instead of policy + PRNG
     #[serde(default)]
     pub replay: Option<Vec<(u64, u32)>>,
+}
+
+fn one() -> usize {
+    1
 }
 
 impl Env {
@@ -44,13 +52,15 @@ impl Env {
             entropy_seed: 0,
             clock_seed: 0,
             context: Context::External,
+            cpus: 1,
             replay: None,
         }
     }
     pub fn describe(&self) -> String {
         format!(
-            "T={} policy={} sched={} entropy={} clock={} ctx={:?}{}",
+            "T={} cpus={} policy={} sched={} entropy={} clock={} ctx={:?}{}",
             self.threads,
+            self.cpus,
             self.policy,
             self.sched_seed,
             self.entropy_seed,
@@ -153,6 +163,8 @@ pub fn run_sim_warm<R: Send>(env: &Env, warm: impl Fn() + Sync + Send, f: impl F
         replay: env.replay.clone(),
     };
     seams::begin_process(env.entropy_seed, env.clock_seed);
+    // threads created from here on inherit this affinity mask
+    crate::driver::set_cpus(env.cpus.max(1));
     sim::reset_pool_ids(0);
     sim::set_default_config(cfg.clone());
     sim::install_global(cfg);
@@ -190,6 +202,7 @@ pub fn run_sim_warm<R: Send>(env: &Env, warm: impl Fn() + Sync + Send, f: impl F
     });
     let counters = seams::counters();
     let trace = sim::shutdown_global().expect("global pool");
+    crate::driver::set_cpus(1);
     let results = results.map_err(|_| LAST_PANIC.lock().map(|g| g.clone()).unwrap_or_default());
     SimOutcome { results, stats: RunStats::from(&trace, counters), choices: trace.nonzero }
 }
